@@ -1,3 +1,4 @@
+import BoolFn.Proofs.BraceNames
 import BoolFn.Proofs.RefParse
 import BoolFn.Proofs.Grammar
 import BoolFn.Proofs.ParserTotal
